@@ -276,6 +276,30 @@ fn item<C: Suite>(ctx: &mut Ctx, n: u16, t: u16, kind: &str, rerand: bool, max_s
                     }
                 }
             }
+            // every share individually valid, the sum not a signature: a set of t-1 holders whose key material claims
+            // a lower threshold. Whatever aggregation returns as Ok must verify (it cannot), in every mode.
+            if k == t as usize && t >= 2 && !rerand {
+                let few: Vec<Identifier<C>> = signers.iter().take(t as usize - 1).copied().collect();
+                let mut g2 = grp.clone();
+                for id in &few {
+                    let kp = &grp.kps[id];
+                    g2.kps.insert(*id, frost_core::keys::KeyPackage::new(*id, *kp.signing_share(), *kp.verifying_share(), *kp.verifying_key(), few.len() as u16));
+                }
+                g2.pkp = frost_core::keys::PublicKeyPackage::new(grp.pkp.verifying_shares().clone(), *grp.pkp.verifying_key(), None);
+                if let Ok(sess) = sign_session(&g2, &few, &msg, &mut rng) {
+                    let vkb = grp.pkp.verifying_key().serialize().unwrap();
+                    for (mode, mname) in [(CheaterDetection::FirstCheater, "first"), (CheaterDetection::AllCheaters, "all"), (CheaterDetection::Disabled, "disabled")] {
+                        if let Ok(sig) = frost_core::aggregate_custom(&sess.pkg, &sess.shares, &g2.pkp, mode) {
+                            let sb = sig.serialize().unwrap_or_default();
+                            if !indep_verify::<C>(&vkb, &msg, &sb) {
+                                ctx.viol("released-invalid-signature", &format!("valid-shares-invalid-sum/{mname}"), json!({"n": n, "t": t, "holders": few.len(), "sig": hex::encode(&sb)}));
+                            }
+                        }
+                        ctx.count("valid_shares_invalid_sum_cases");
+                    }
+                    ctx.class(format!("S={}/valid-shares-invalid-sum", few.len()));
+                }
+            }
             if ctx.samples.is_empty() {
                 ctx.sample(json!({"n": n, "t": t, "ids": kind, "via": if rerand {"rerandomized"} else {"plain"},
                     "signers": signers.iter().map(id_hex::<C>).collect::<Vec<_>>(),
